@@ -1,2 +1,57 @@
-From Coq Require Import ZArith List.
-From BT Require Import Model.Sort.
+(* C11 -- multiunion is the exact sorted union for every integer-key family.
+   Model: Model/Sort.v (radixsort_int with its byte passes and the signed /
+   unsigned most-significant-byte order, quicksort with explicit stack,
+   median-of-3 and insertion sort below 26, uniq, the 800-element switch, the
+   gathering of operands; Python: insertion into a Set). *)
+From Coq Require Import ZArith List Bool Sorted Permutation.
+From BT Require Import Model.Sort Model.SortSpec Proofs.SortProofs Proofs.QuickProofs.
+Import ListNotations.
+Open Scope Z_scope.
+
+(* LSB-first radix sort sorts every list of keys of the type's range, signed
+   and unsigned, 1..8 bytes (4 and 8 are the widths in use) *)
+Theorem C11_radix : forall (signed : bool) (nbytes : nat) (l : list Z),
+  (1 <= nbytes)%nat ->
+  Forall (in_range signed nbytes) l ->
+  ascending (radixsort signed nbytes l) /\ Permutation l (radixsort signed nbytes l).
+Proof. exact SortProofs.radixsort_correct. Qed.
+Print Assumptions C11_radix.
+
+Theorem C11_uniq : forall l : list Z, ascending l ->
+  strictly_ascending (uniq l) /\ forall k, In k (uniq l) <-> In k l.
+Proof. exact SortProofs.uniq_correct. Qed.
+Print Assumptions C11_uniq.
+
+(* the in-place quicksort (pending-slice stack, median of three, sentinel
+   partition, insertion sort for slices of at most 25) sorts *)
+Theorem C11_quicksort : forall l : list Z,
+  ascending (quicksort l) /\ Permutation l (quicksort l).
+Proof. exact QuickProofs.quicksort_correct. Qed.
+Print Assumptions C11_quicksort.
+
+(* C: gather, sort (either algorithm, on both sides of the 800 switch), uniq *)
+Theorem C11_multiunion_c : forall (signed : bool) (nbytes : nat) (operands : list (list Z)),
+  (1 <= nbytes)%nat ->
+  Forall (in_range signed nbytes) (concat operands) ->
+  sorted_union operands (multiunion_c signed nbytes operands).
+Proof. exact (SortProofs.multiunion_c_correct QuickProofs.quicksort_correct). Qed.
+Print Assumptions C11_multiunion_c.
+
+(* Python: repeated insertion *)
+Theorem C11_multiunion_py : forall operands : list (list Z),
+  sorted_union operands (multiunion_py operands).
+Proof. exact SortProofs.multiunion_py_correct. Qed.
+Print Assumptions C11_multiunion_py.
+
+(* hence both implementations return the same set *)
+Theorem C11_same : forall (signed : bool) (nbytes : nat) (operands : list (list Z)),
+  (1 <= nbytes)%nat ->
+  Forall (in_range signed nbytes) (concat operands) ->
+  multiunion_c signed nbytes operands = multiunion_py operands.
+Proof. exact (SortProofs.multiunion_same QuickProofs.quicksort_correct). Qed.
+Print Assumptions C11_same.
+
+Example C11_example :
+  multiunion_c false 4 [[4294967295; 7]; [2147483648; 7; 0]] = [0; 7; 2147483648; 4294967295] /\
+  radixsort true 4 [5; -2147483648; 2147483647; -1; 0] = [-2147483648; -1; 0; 5; 2147483647].
+Proof. vm_compute. split; reflexivity. Qed.
